@@ -13,18 +13,25 @@ LEVEL_RULE = ("envelopes (plain and FlexTempo) as C08; histories of 1-12 reads o
 ASSUMPTIONS = ASSUMPTIONS_M2
 TRUSTED = TRUSTED_M2
 
-SHAPE_READS = ("curve_shape_at", "point_at", "range", "integrate", "average")
+SHAPE_READS = ("curve_shape_at", "point_at", "range", "integrate", "average", "average_from", "average_to")
 
 
 def gen(seed, index):
     rng = rng_for(PID, seed, index)
     G = g.GE(rng)
     e = G.env()
+    if rng.random() < 0.12:
+        # tiny envelopes whose only / last event has a positive duration (defaults such as end = duration alias internal objects)
+        G2 = g.GE(rng, last_positive=True)
+        e = G2.env(rng.choice([1, 1, 2]))
     qs = []
     for _ in range(rng.randint(1, 12)):
         k = rng.choice(["value_at", "parameter_at", "curve_shape_at", "curve_shape_at", "point_at", "point_at", "range", "range",
-                        "integrate", "integrate", "average", "average_all", "is_static", "points"])
-        if k in ("value_at", "parameter_at", "curve_shape_at", "point_at"):
+                        "integrate", "integrate", "average", "average_all", "average_from", "average_from", "average_to",
+                        "is_static", "points"])
+        if k in ("average_from", "average_to"):
+            qs.append([k, g.pick_time(rng, e, allow_bad=False, inside_bias=0.6)])
+        elif k in ("value_at", "parameter_at", "curve_shape_at", "point_at"):
             t = g.pick_time(rng, e, inside_bias=0.7)
             qs.append([k, t])
         elif k in ("range", "integrate", "average"):
